@@ -243,7 +243,7 @@ Proof.
 Qed.
 
 Definition acct_props (s : tstate) (c : Z) (l : bool) (s' : tstate) (c' : Z) (l' : bool) (em : bool) : Prop :=
-  (c' = c \/ c' = 0%Z \/ (c' = (c + 1)%Z /\ l = true /\ l' = false)) /\
+  (c' = c \/ c' = 0%Z \/ (c' = (c + 1)%Z /\ l = true /\ (l' = false \/ em = true))) /\
   (l' = true -> l = true \/ em = true) /\
   (em = true -> l' = true /\ (l = true -> s = TLost -> c' = (c + 1)%Z)) /\
   ((c < max_consecutive_lost)%Z -> (c' >= max_consecutive_lost)%Z -> s' = TErr /\ em = false).
@@ -251,17 +251,18 @@ Definition acct_props (s : tstate) (c : Z) (l : bool) (s' : tstate) (c' : Z) (l'
 Lemma tchg_props s c l s' c' l' em : tchg true (s, c, l) (s', c', l') em -> acct_props s c l s' c' l' em.
 Proof.
   intro A. unfold acct_props. inversion A; subst.
-  - repeat split; intros; auto; try lia; try congruence.
-  - repeat split; intros; auto; try lia; try congruence.
+  - intuition (auto; try lia; try congruence).
+  - intuition (auto; try lia; try congruence).
   - discriminate.
-  - repeat split; intros; auto; try lia; try congruence.
-  - repeat split; intros; auto; try lia; try congruence.
-  - repeat split; intros; auto; try lia; try congruence.
+  - intuition (auto; try lia; try congruence).
+  - intuition (auto; try lia; try congruence).
+  - intuition (auto; try lia; try congruence).
 Qed.
 
 Lemma wchg_props s c l s' c' l' : wchg (s, c, l) (s', c', l') -> acct_props s c l s' c' l' false.
 Proof.
-  intro A. unfold acct_props. inversion A; subst; repeat split; intros; auto; try lia; try congruence.
+  intro A. assert (Mp : (0 < max_consecutive_lost)%Z) by reflexivity.
+  unfold acct_props. inversion A; subst; intuition (auto; try lia; try congruence).
 Qed.
 
 (* no loss is counted twice, none is skipped, and the max-th puts the task in ERR:
@@ -271,9 +272,10 @@ Theorem loss_counted_once st0 rootss sy l t :
   let sy' := fst (step_v true false g sy l) in
   let runs := snd (step_v true false g sy l) in
   (* consecutiveLost is left alone, reset, or incremented by one - the latter
-     consumes lossUncounted *)
+     consumes lossUncounted (which the same step raises again if it resubmits the task) *)
   (wcl (sw sy') t = wcl (sw sy) t \/ wcl (sw sy') t = 0%Z \/
-   (wcl (sw sy') t = (wcl (sw sy) t + 1)%Z /\ wlu (sw sy) t = true /\ wlu (sw sy') t = false)) /\
+   (wcl (sw sy') t = (wcl (sw sy) t + 1)%Z /\ wlu (sw sy) t = true /\
+    (wlu (sw sy') t = false \/ exists e, In (e, t) runs))) /\
   (* lossUncounted is raised only by a hand-out of the task *)
   (wlu (sw sy') t = true -> wlu (sw sy) t = true \/ exists e, In (e, t) runs) /\
   (* a hand-out raises it, and finds it lowered or lowers it itself, counting the loss *)
@@ -312,7 +314,11 @@ Proof.
           simpl in Hx. subst x. exists e0. exact Hin.
       + exists false. split; [apply wchg_props, Wc|]. rewrite E. split; [intros e0 [] | discriminate]. }
   destruct P as [em [[P1 [P2 [P3 P4]]] [In1 In2]]].
-  split; [exact P1|]. split.
+  split.
+  { destruct P1 as [X|[X|[X [Y Z]]]]; [left; exact X | right; left; exact X|].
+    right. right. split; [exact X|]. split; [exact Y|].
+    destruct Z as [Z|Z]; [left; exact Z | right; apply In2, Z]. }
+  split.
   - intro H. destruct (P2 H) as [X|X]; [left; exact X | right; apply In2, X].
   - split.
     + intros e H. apply P3, (In1 e H).
@@ -320,3 +326,165 @@ Proof.
 Qed.
 
 End Acct.
+
+(* ------------------------------------------------------------------ one loss of a handed-out task, any number of evaluations, any schedule *)
+
+Section Phase.
+Variable g : list tnode.
+Hypothesis Hwf : wf g.
+Variable st0 : nat -> tstate.
+Variable rootss : list (list nat).
+Variable t : nat.      (* the task that is lost *)
+Variable c0 : Z.       (* its consecutiveLost before the loss *)
+Variable W : nat -> Prop.   (* the evaluations awaiting it *)
+
+Local Notation Hver := (fun (_ : true = true) => @eq_refl bool false).
+Local Notation stepv := (step_v true false g).
+Local Notation execv := (exec_v true false g).
+Local Notation reach := (reachable_v true false g (init_sys st0 rootss)).
+
+(* where the accounting of this loss stands, and how often t was handed out since *)
+Inductive acct : tstate * Z * bool -> nat -> Prop :=
+| ac_lost : acct (TLost, c0, true) 0
+| ac_counted : (c0 + 1 < max_consecutive_lost)%Z -> acct (TLost, (c0 + 1)%Z, false) 0
+| ac_err : (c0 + 1 >= max_consecutive_lost)%Z -> acct (TErr, (c0 + 1)%Z, false) 0
+| ac_resub s : handed s -> (c0 + 1 < max_consecutive_lost)%Z -> acct (s, (c0 + 1)%Z, true) 1.
+
+Record PH (sy : sys) (n : nat) : Prop := mkPH {
+  ph_reach : reach sy;
+  ph_acct : acct (tv (sw sy) t) n;
+  ph_B : forall e, W e ->
+         tracked t (get_ev sy e) /\ estarted (get_ev sy e) = true /\ e < length (sevs sy);
+  ph_deps : deps_done false g (wst (sw sy)) t }.
+
+Lemma acct_wstep w w' rs n :
+  wstep true w w' rs -> acct (tv w t) n -> acct (tv w' t) (n + if mem t rs then 1 else 0).
+Proof.
+  intros [_ A] Ac. specialize (A t). inversion Ac; subst.
+  - rewrite <- H0 in A. inversion A; subst.
+    + rewrite <- H3, Nat.add_0_r. rewrite H0. exact Ac.
+    + rewrite <- H3. apply (ac_resub TWaiting); [left; reflexivity | assumption].
+    + rewrite <- H3. apply ac_err. assumption.
+  - rewrite <- H0 in A. inversion A; subst.
+    + rewrite <- H4, Nat.add_0_r. rewrite H0. exact Ac.
+    + rewrite <- H4. apply (ac_resub TWaiting); [left; reflexivity | assumption].
+  - rewrite <- H0 in A. inversion A; subst. rewrite <- H4, Nat.add_0_r. rewrite H0. exact Ac.
+  - rewrite <- H0 in A.
+    assert (X : tv w' t = (s, (c0 + 1)%Z, true) /\ mem t rs = false).
+    { destruct H1 as [Hs|Hs]; subst s; inversion A; subst; split; congruence. }
+    destruct X as [X1 X2]. rewrite X1, X2, Nat.add_0_r. apply ac_resub; assumption.
+Qed.
+
+Lemma acct_wchg w w' n :
+  wchg (tv w t) (tv w' t) -> acct (tv w t) n -> acct (tv w' t) n.
+Proof.
+  intros A Ac. inversion Ac; subst.
+  - rewrite <- H0 in A. inversion A; subst.
+    + rewrite <- H3, H0. exact Ac.
+    + rewrite <- H3. apply ac_counted. assumption.
+    + rewrite <- H3. apply ac_err. assumption.
+  - rewrite <- H0 in A. inversion A; subst. rewrite <- H4, H0. exact Ac.
+  - rewrite <- H0 in A. inversion A; subst. rewrite <- H4, H0. exact Ac.
+  - rewrite <- H0 in A.
+    assert (X : tv w' t = (s, (c0 + 1)%Z, true)).
+    { destruct H1 as [Hs|Hs]; subst s; inversion A; subst; congruence. }
+    rewrite X. apply ac_resub; assumption.
+Qed.
+
+Lemma wchg_ok w w' u : wchg (tv w u) (tv w' u) -> (wst w u = TOk <-> wst w' u = TOk).
+Proof.
+  unfold tv. intro A. inversion A; subst; try (split; congruence).
+  - rewrite <- H0, <- H3. reflexivity.
+Qed.
+
+Lemma get_ev_set_other sy e e' ev' w' : e <> e' ->
+  get_ev (mkSys w' (set_nth (sevs sy) e ev')) e' = get_ev sy e'.
+Proof. intro Ne. unfold get_ev. simpl. apply nth_set_nth_other. exact Ne. Qed.
+
+Lemma get_ev_set_same sy e ev' w' : e < length (sevs sy) ->
+  get_ev (mkSys w' (set_nth (sevs sy) e ev')) e = ev'.
+Proof. intro L. unfold get_ev. simpl. apply nth_set_nth_same. exact L. Qed.
+
+Lemma step_length sy l : length (sevs (fst (stepv sy l))) = length (sevs sy).
+Proof.
+  destruct l as [u s|e|e u|e]; simpl; try reflexivity;
+    destruct (Nat.ltb e (length (sevs sy))); try reflexivity.
+  - destruct (step_start true false g (get_ev sy e) (sw sy)) as [[a b] c]. simpl. apply set_nth_length.
+  - destruct (step_wait true (get_ev sy e) (sw sy) u) as [a b]. simpl. apply set_nth_length.
+  - destruct (step_main true false g (get_ev sy e) (sw sy)) as [[a b] c]. simpl. apply set_nth_length.
+Qed.
+
+(* the evaluation e keeps track of t across one step *)
+Lemma tracked_step sy n l e :
+  PH sy n -> ev_label l -> W e -> tracked t (get_ev (fst (stepv sy l)) e).
+Proof.
+  intros P Hl He. destruct (ph_B sy n P e He) as [T [St L]].
+  pose proof (reachable_ok true false Hver g Hwf _ _ (init_sys_ok st0 rootss) (ph_reach sy n P)) as Hok.
+  destruct l as [u s|e0|e0 u|e0]; [destruct Hl | | |]; simpl;
+    (destruct (Nat.ltb e0 (length (sevs sy))) eqn:L0; [|exact T]).
+  - (* LStart: e is started already *)
+    destruct (step_start true false g (get_ev sy e0) (sw sy)) as [[ev' w'] rs] eqn:E. simpl.
+    destruct (Nat.eq_dec e0 e) as [->|Ne]; [|rewrite get_ev_set_other by exact Ne; exact T].
+    rewrite get_ev_set_same by exact L. unfold step_start in E. rewrite St in E. inversion E; subst. exact T.
+  - destruct (step_wait true (get_ev sy e0) (sw sy) u) as [ev' w'] eqn:E. simpl.
+    destruct (Nat.eq_dec e0 e) as [->|Ne]; [|rewrite get_ev_set_other by exact Ne; exact T].
+    rewrite get_ev_set_same by exact L. unfold step_wait in E.
+    destruct (eres (get_ev sy e)) eqn:Hr; [inversion E; subst; exact T|].
+    destruct (find_waiter u (ewait (get_ev sy e))); [|inversion E; subst; exact T].
+    destruct (ge_ok _); inversion E; subst; [|exact T].
+    destruct T as [T|[_ T]]; [congruence|]. right. split; [exact Hr | exact T].
+  - destruct (step_main true false g (get_ev sy e0) (sw sy)) as [[ev' w'] rs] eqn:E. simpl.
+    destruct (Nat.eq_dec e0 e) as [->|Ne]; [|rewrite get_ev_set_other by exact Ne; exact T].
+    rewrite get_ev_set_same by exact L. unfold step_main in E.
+    destruct (eres (get_ev sy e)) eqn:Hr; [inversion E; subst; exact T|].
+    destruct (edonec (get_ev sy e)) as [|u rest] eqn:Hd; [inversion E; subst; exact T|].
+    destruct T as [T|[_ T]]; [congruence|].
+    apply (main_cont_tracked true false g t _ _ _ _ _ E eq_refl). cbn [est].
+    destruct (ret_frame false g (wst (sw sy)) (est (get_ev sy e)) u) as [Fp [Fe Ft]].
+    destruct (Hok _ (get_ev_In sy e L)) as [O [Td _]]. specialize (Td Hr).
+    destruct T as [T|[T|T]].
+    + left. apply Fe, T.
+    + destruct (Nat.eq_dec u t) as [->|Ne].
+      * (* the task itself is returned: what happens depends on where its accounting stands *)
+        pose proof (ph_acct sy n P) as Ac. unfold tv in Ac. inversion Ac; subst.
+        -- right. right. apply (ret_lost_sched false g Hwf); [exact O | exact Td | congruence | apply (ph_deps sy n P)].
+        -- right. right. apply (ret_lost_sched false g Hwf); [exact O | exact Td | congruence | apply (ph_deps sy n P)].
+        -- left. apply ret_err. congruence.
+        -- right. right. apply ret_handed_sched. congruence.
+      * right. left. rewrite Fp. apply set_rm_In. split; [exact T | congruence].
+    + right. right. apply Ft, T.
+Qed.
+
+Lemma PH_step sy n l :
+  PH sy n -> ev_label l -> PH (fst (stepv sy l)) (n + cnt t (snd (stepv sy l))).
+Proof.
+  intros P Hl.
+  pose proof (reachable_ok true false Hver g Hwf _ _ (init_sys_ok st0 rootss) (ph_reach sy n P)) as Hok.
+  pose proof (step_spec true false Hver g Hwf sy l Hok (ev_label_legal l Hl)) as F.
+  constructor.
+  - apply reach_step; [apply (ph_reach sy n P) | apply ev_label_legal, Hl].
+  - destruct (ev_step_world g Hwf sy l Hok Hl) as [[rs [Ws E]]|[E Wc]].
+    + rewrite (cnt_mem t _ (sf_nodup _ _ _ _ _ _ _ F)), E. apply acct_wstep; [exact Ws | apply (ph_acct sy n P)].
+    + rewrite E. unfold cnt. simpl. rewrite Nat.add_0_r. apply (acct_wchg _ _ _ (Wc t)), (ph_acct sy n P).
+  - intros e He. destruct (ph_B sy n P e He) as [_ [St L]]. split; [apply (tracked_step sy n l e P Hl He)|].
+    split; [apply step_started, St | rewrite step_length; exact L].
+  - intros d Hd v Hv. apply class_done_false.
+    pose proof (ph_deps sy n P d Hd v Hv) as X. apply class_done_false in X.
+    destruct (ev_step_world g Hwf sy l Hok Hl) as [[rs [Ws E]]|[E Wc]].
+    + apply class_done_false. apply (wstep_done true false _ _ _ Hver Ws). apply class_done_false. exact X.
+    + apply (wchg_ok _ _ _ (Wc v)). exact X.
+Qed.
+
+Lemma PH_exec : forall ls sy n,
+  PH sy n -> Forall ev_label ls ->
+  PH (fst (execv sy ls)) (n + cnt t (runs_of (snd (execv sy ls)))).
+Proof.
+  induction ls as [|l ls IH]; intros sy n P Hl; simpl.
+  - unfold cnt. simpl. rewrite Nat.add_0_r. exact P.
+  - inversion Hl; subst. pose proof (PH_step sy n l P H1) as P1.
+    destruct (stepv sy l) as [sy1 runs] eqn:E. simpl in P1.
+    specialize (IH sy1 _ P1 H2). destruct (execv sy1 ls) as [sy2 tr]. simpl in *.
+    unfold runs_of. simpl. fold (runs_of tr). rewrite cnt_app, Nat.add_assoc. exact IH.
+Qed.
+
+End Phase.
